@@ -425,6 +425,40 @@ def whole_sequences(check, tier):
     s.done()
 
 
+def encoding_aliases(check, tier):
+    """the encoding is a NAME handed in by the locale: every spelling / alias of an encoding must decode like its canonical name
+    (the C locale reports ascii as 'ANSI_X3.4-1968'; utf-8 comes as UTF-8, utf8, UTF8, utf_8, U8 ...)"""
+    ALIASES = {"ascii": ["ASCII", "us-ascii", "US-ASCII", "ANSI_X3.4-1968", "646", "iso646_us", "ansi_x3.4_1968", "cp367"],
+               "utf-8": ["UTF-8", "utf8", "UTF8", "utf_8", "U8", "cp65001", "Utf-8"],
+               "latin-1": ["latin1", "iso-8859-1", "ISO-8859-1", "iso8859-1", "L1", "cp819", "latin_1", "8859"]}
+    alpha = [0x00, 0x1b, 0x5b, 0x41, 0x4f, 0x61, 0x7f, 0x80, 0xa0, 0xc3, 0xa9, 0xe2, 0x82, 0xac, 0xf0, 0x9f, 0xff]
+    s = Suite(check, "C03.encoding_aliases", "every byte string of length <= 3 over 17 boundary bytes, driven like Input.find_key under 8 / 7 / 8 "
+              "aliases of ascii / utf-8 / latin-1 and the 3 naming modes: the same cuts, names and errors as under the canonical name",
+              bound="length <= 3")
+    import itertools as _it
+    streams = [bytes(p) for n in (1, 2, 3) for p in _it.product(alpha, repeat=n)]
+    if tier != "thorough":
+        streams = streams[::3] + [b"\xe9ab", b"\xa0\x1b[A", b"\xc3\xa9z"]
+    for canon, names in ALIASES.items():
+        for mode in EV.Keynames:
+            ref = {}
+            for st in streams:
+                ref[st] = drive(st, canon, mode)
+            for name in names:
+                for st in streams:
+                    s.evaluations += 1
+                    try:
+                        got = drive(st, name, mode)
+                    except Exception as e:      # noqa: BLE001
+                        got = ("crash", f"{type(e).__name__}: {e}")
+                    if got != ref[st]:
+                        s.fail("C03.encoding_alias", dict(stream=st.hex(), encoding=name, canonical=canon, mode=mode.name),
+                               f"under {name!r}: {got}; under {canon!r}: {ref[st]}")
+    s.nontrivial = set(range(s.evaluations))
+    s.samples = [dict(stream="e96162", encoding="ANSI_X3.4-1968", canonical="ascii", mode="CURTSIES")]
+    s.done()
+
+
 def attach_probes():
     import contracts.findkey as FK
     FK.find_key.probe = find_key_probe
@@ -436,6 +470,7 @@ def run(check, tier, seed):
     attach_probes()
     verify(FK.find_key, tier, check, prefix="C03")
     whole_sequences(check, tier)
+    encoding_aliases(check, tier)
     check.assume("stream level (deductive): Input._send.find_key consumes a non-empty prefix of the buffered bytes, never loses, duplicates "
                  "or reorders a byte, returns the decoder's answer for exactly the consumed bytes, cuts at the first recognised prefix, "
                  "returns None only for an empty buffer and raises only when no prefix is recognised (contracts/findkey.py); the decoder "
